@@ -193,109 +193,189 @@ def decode_ref(e, mu, dim):
   return f
 
 
-def contact_forces(m, d, mm, dd, cfg):
-  """Failures of mjw.contact_force on one forwarded scene (both frames)."""
+def request_orders(rng, nacon):
+  """Request lists for mjw.contact_force: identity, reversed, permuted, a subset, repeats, and lists with ids that
+  name no contact (>= nacon: the slot must stay untouched; -1: zero wrench, as mj_contactForce)."""
+  idn = np.arange(nacon)
+  out = [("identity", idn), ("reversed", idn[::-1])]
+  if nacon > 1:
+    out.append(("permuted", rng.permutation(nacon)))
+    out.append(("subset", rng.permutation(nacon)[: max(1, nacon // 2)]))
+    out.append(("repeats", rng.integers(0, nacon, nacon + 2)))
+  mixed = np.concatenate([rng.permutation(nacon)[: max(1, nacon - 1)], [nacon, -1, nacon + 3]])
+  out.append(("out-of-range", rng.permutation(mixed)))
+  return [(n, np.asarray(x, dtype=np.int32)) for n, x in out]
+
+
+def contact_forces(m, d, mm, dd, cfg, rng=None, orders=None):
+  """Failures of mjw.contact_force on one forwarded scene: every request order x both frames, each slot against
+  (a) a numpy decode of the efc_force row of THE REQUESTED CONTACT'S world and (b) mj_contactForce of that world.
+  d: one MjData (all worlds share its state) or one per world."""
   import mujoco
   import warp as wp
 
   import mujoco_warp as mjw
 
-  fails, st = [], {"contacts": 0, "matched": 0, "dims": set(), "worst_mj": 0.0, "worst_decode": 0.0}
+  fails, st = [], {"contacts": 0, "matched": 0, "dims": set(), "worst_mj": 0.0, "worst_decode": 0.0, "slots": 0, "orders": set()}
   nacon = int(dd.nacon.numpy()[0])
   if nacon == 0:
     return fails, st
+  dl = d if isinstance(d, list) else [d] * dd.nworld
+  hetero = isinstance(d, list)
   pyramidal = cfg["cone"] == "pyramidal"
-  ids = wp.array(np.arange(nacon, dtype=np.int32), dtype=int)
-  outs = {}
-  for tw in (False, True):
-    f = wp.array(np.full((nacon, 6), 12345.0, dtype=np.float32), dtype=wp.spatial_vector)
-    mjw.contact_force(mm, dd, ids, tw, f)
-    wp.synchronize()
-    outs[tw] = f.numpy().astype(np.float64)
   cdim, cfric, cadr, cworld = dd.contact.dim.numpy(), dd.contact.friction.numpy().astype(np.float64), dd.contact.efc_address.numpy(), dd.contact.worldid.numpy()
   cframe, cadh, cgeom, cpos = dd.contact.frame.numpy().astype(np.float64), dd.contact.adhesion.numpy().astype(np.float64), dd.contact.geom.numpy(), dd.contact.pos.numpy()
   efc = dd.efc.force.numpy().astype(np.float64)
-  same = H.same_constraints(m, d, dd, 0, frames=pyramidal, masses=True)
-  st["same_constraint_set"] = int(same)
-  mj = []
-  for i in range(d.ncon):
-    f = np.zeros(6)
-    mujoco.mj_contactForce(m, d, i, f)
-    mj.append(f)
+  SENT = 12345.0
+  # references per contact
+  ref, refw, mjref = {}, {}, {}
+  same = {w: H.same_constraints(m, dl[w], dd, w, frames=pyramidal, masses=True) for w in (range(dd.nworld) if hetero else [0])}
+  st["same_constraint_set"] = int(sum(same.values()))
   for c in range(nacon):
     w, dim, a0 = int(cworld[c]), int(cdim[c]), int(cadr[c, 0])
     st["contacts"] += 1
     st["dims"].add((cfg["cone"], dim))
-    # (a) exact decode of MJWarp's own efc_force
-    ref = np.zeros(6)
+    r = np.zeros(6)
     if a0 >= 0:
       if pyramidal:
         n_e = 1 if dim == 1 else 2 * (dim - 1)
-        ref = decode_ref([efc[w, a0 + k] for k in range(n_e)], cfric[c], dim)
+        r = decode_ref([efc[w, a0 + k] for k in range(n_e)], cfric[c], dim)
       else:
-        ref[:dim] = [efc[w, int(cadr[c, k])] for k in range(dim)]
-      ref[0] -= cadh[c]
-    refw = np.concatenate([cframe[c].T @ ref[:3], cframe[c].T @ ref[3:]])
-    for tw, r in ((False, ref), (True, refw)):
-      err = float(np.max(np.abs(outs[tw][c] - r)) / (1 + np.max(np.abs(r))))
-      st["worst_decode"] = max(st["worst_decode"], err)
-      if err > 2e-5:
-        fails.append({"site": f"decode:{cfg['cone']}:condim{dim}:world{int(tw)}", "contact": c, "world": w, "mjw": outs[tw][c].tolist(), "expected": r.tolist(), "efc_address": cadr[c].tolist()})
-    # (b) MuJoCo's mj_contactForce for the same contact (matched by geoms and position)
-    best = None
-    for i in range(d.ncon):
-      g = d.contact[i]
-      if {int(g.geom1), int(g.geom2)} == {int(cgeom[c][0]), int(cgeom[c][1])} and np.linalg.norm(g.pos - cpos[c]) < 1e-4 and g.dim == dim:
-        best = i
-        break
-    if best is None or w != 0 or not same:
+        r[:dim] = [efc[w, int(cadr[c, k])] for k in range(dim)]
+      r[0] -= cadh[c]
+    ref[c], refw[c] = r, np.concatenate([cframe[c].T @ r[:3], cframe[c].T @ r[3:]])
+    if not same.get(w, False):
       continue
-    st["matched"] += 1
-    if int(d.contact[best].geom1) != int(cgeom[c][0]):
-      continue  # opposite geom order flips the frame; such pairs are compared by (a) only
-    fm = mj[best]
-    fw = np.concatenate([d.contact[best].frame.reshape(3, 3).T @ fm[:3], d.contact[best].frame.reshape(3, 3).T @ fm[3:]])
-    frames_equal = np.max(np.abs(d.contact[best].frame.reshape(3, 3) - cframe[c])) < 1e-4
-    for tw, r in ((False, fm), (True, fw)):
-      scale = 1 + np.max(np.abs(r))
-      diff = np.abs(outs[tw][c] - r)
-      if not tw and not frames_equal:
-        diff = diff[[0, 3]]  # the tangent axes of the contact frame are a free choice: only normal components are comparable
-      err = float(np.max(diff) / scale)
-      st["worst_mj"] = max(st["worst_mj"], err)
-      if err > cfg.get("mj_tol", 3e-2):
-        fails.append({"site": f"vs-mujoco:{cfg['cone']}:condim{dim}:world{int(tw)}", "contact": c, "mjw": outs[tw][c].tolist(), "mujoco": r.tolist(), "frames_equal": bool(frames_equal)})
+    dw = dl[w]
+    for i in range(dw.ncon):
+      g = dw.contact[i]
+      if int(g.geom1) == int(cgeom[c][0]) and int(g.geom2) == int(cgeom[c][1]) and np.linalg.norm(g.pos - cpos[c]) < 1e-4 and g.dim == dim:
+        fm = np.zeros(6)
+        mujoco.mj_contactForce(m, dw, i, fm)
+        fr = g.frame.reshape(3, 3)
+        mjref[c] = (fm, np.concatenate([fr.T @ fm[:3], fr.T @ fm[3:]]), bool(np.max(np.abs(fr - cframe[c])) < 1e-4))
+        st["matched"] += 1
+        break
+  if orders is None:
+    orders = request_orders(rng if rng is not None else np.random.default_rng(0), nacon)
+  for oname, ids in orders:
+    st["orders"].add(oname)
+    for tw in (False, True):
+      f = wp.array(np.full((len(ids), 6), SENT, dtype=np.float32), dtype=wp.spatial_vector)
+      mjw.contact_force(mm, dd, wp.array(ids, dtype=int), tw, f)
+      wp.synchronize()
+      out = f.numpy().astype(np.float64)
+      for slot, c in enumerate(ids.tolist()):
+        st["slots"] += 1
+        base = {"order": oname, "contact_ids": ids.tolist(), "slot": slot, "contact": c, "to_world_frame": tw, "mjw": out[slot].tolist()}
+        if c >= nacon:
+          if np.any(out[slot] != SENT):
+            fails.append({"site": f"id-beyond-nacon-written:{oname}", **base})
+          continue
+        if c < 0:
+          if np.any(out[slot] != 0):
+            fails.append({"site": f"negative-id-nonzero:{oname}", **base})
+          continue
+        dim, w = int(cdim[c]), int(cworld[c])
+        r = refw[c] if tw else ref[c]
+        err = float(np.max(np.abs(out[slot] - r)) / (1 + np.max(np.abs(r))))
+        st["worst_decode"] = max(st["worst_decode"], err)
+        if err > 2e-5:
+          fails.append({"site": f"decode:{cfg['cone']}:condim{dim}:world{int(tw)}:{oname}", "world": w, "expected": r.tolist(), "efc_address": cadr[c].tolist(), **base})
+        if c in mjref:
+          fm, fw, frames_equal = mjref[c]
+          rm = fw if tw else fm
+          diff = np.abs(out[slot] - rm)
+          if not tw and not frames_equal:
+            diff = diff[[0, 3]]  # the tangent axes of the contact frame are a free choice: only normal components are comparable
+          err = float(np.max(diff) / (1 + np.max(np.abs(rm))))
+          st["worst_mj"] = max(st["worst_mj"], err)
+          if err > cfg.get("mj_tol", 3e-2):
+            fails.append({"site": f"vs-mujoco:{cfg['cone']}:condim{dim}:world{int(tw)}:{oname}", "world": w, "mujoco": rm.tolist(), "frames_equal": frames_equal, **base})
   return fails, st
+
+
+def kvalidate(res, trk, ncases):
+  """The translated contact_force_kernel vs the real kernel on the same launch: 2-4 worlds with different efc_force rows,
+  request lists permuted / reversed / subsets / repeats / ids >= nacon."""
+  import kvalid
+
+  import mujoco_warp._src.support as sp
+
+  fi = getattr(trk, "kernels", {}).get("contact_force_kernel")
+  if fi is None:
+    return [{"error": "kernel contact_force_kernel did not translate", "detail": getattr(trk, "errors", {})}]
+  rng = np.random.default_rng(vlib.seed() + 3940)
+  cases, infos = [], []
+  for k in range(ncases):
+    nworld, NJ = int(rng.integers(2, 5)), 14
+    ncon = int(rng.integers(3, 7))
+    nacon = ncon - (1 if k % 4 == 3 else 0)
+    cone = k % 2
+    cdim = rng.choice([1, 3, 4, 6], ncon).astype(np.int32)
+    cworld = rng.integers(0, nworld, ncon).astype(np.int32)
+    cworld[: min(ncon, nworld)] = rng.permutation(nworld)[: min(ncon, nworld)]  # every world is used, worlds differ from slots
+    cadr = -np.ones((ncon, 10), dtype=np.int32)
+    for c in range(ncon):
+      nrows = int(cdim[c]) if (cone != 0 or cdim[c] == 1) else 2 * (int(cdim[c]) - 1)
+      base = int(rng.integers(0, NJ - nrows + 1)) if rng.random() > 0.1 else -1
+      if base >= 0:
+        cadr[c, :nrows] = np.arange(base, base + nrows)
+    efc = (rng.standard_normal((nworld, NJ)) * 10.0 ** rng.uniform(0, 3, (nworld, 1))).astype(np.float32)
+    order = [rng.permutation(nacon), np.arange(nacon)[::-1], rng.permutation(nacon)[: max(1, nacon // 2)], rng.integers(0, nacon, nacon + 1),
+             rng.permutation(np.concatenate([rng.permutation(nacon)[:2], [nacon, nacon + 2]]))][k % 5]  # fmt: skip
+    ids = np.asarray(order, dtype=np.int32)
+    args = dict(
+      opt_cone=int(cone), contact_frame_in=rng.standard_normal((ncon, 3, 3)).astype(np.float32), contact_friction_in=rng.uniform(0.05, 2, (ncon, 5)).astype(np.float32),
+      contact_dim_in=cdim, contact_efc_address_in=cadr, contact_worldid_in=cworld, contact_adhesion_in=np.where(rng.random(ncon) < 0.5, 0, rng.uniform(0, 9, ncon)).astype(np.float32),
+      efc_force_in=efc, njmax_in=NJ, nacon_in=np.array([nacon], dtype=np.int32), contact_ids=ids, to_world_frame=bool(k % 3 == 0),
+      out=np.full((len(ids), 6), 7.0, dtype=np.float32),
+    )  # fmt: skip
+    cases.append(dict(kernel=sp.contact_force_kernel, fi=fi, dim=(len(ids),), args=args, written=["out"]))
+    infos.append({"nworld": nworld, "cone": int(cone), "contact_ids": ids.tolist(), "contact_worldid": cworld.tolist(), "contact_dim": cdim.tolist(), "nacon": nacon})
+    res.nontrivial(("kv", k, nworld, tuple(ids.tolist())))
+  verdicts = kvalid.run_cases(res, "C39k", "Gen.support", cases, tol=1e-4)
+  res.extra["kernel_validation"] = {"cases": len(cases), "agree": verdicts.count(0), "discarded": verdicts.count(1), "disagree": verdicts.count(2)}
+  return [{"case": i, **infos[i]} for i, v in enumerate(verdicts) if v == 2]
 
 
 def forward_oracle(res, nscenes):
   import mujoco
 
+  from props import C06 as B
+
   rng = np.random.default_rng(vlib.seed() + 39)
   fails = []
-  agg = {"contacts": 0, "matched": 0, "dims": set(), "worst_mj": 0.0, "worst_decode": 0.0, "same_constraint_set": 0}
+  agg = {"contacts": 0, "matched": 0, "dims": set(), "worst_mj": 0.0, "worst_decode": 0.0, "same_constraint_set": 0, "slots": 0, "orders": set(), "nworlds": set()}
   for k in range(nscenes):
     cone = ("pyramidal", "elliptic")[k % 2]
     condims = [(1, 3, 4, 6), (3,), (4,), (6,), (1,)][(k // 2) % 5]
+    nworld = (2, 3, 4, 1)[k % 4]
     xml, cfg = H.scene(rng, cone, "Newton", ("dense", "sparse")[(k // 2) % 2], condims=condims, adhesion=(k % 3 == 0), extra_opt='tolerance="1e-10"')
     m = mujoco.MjModel.from_xml_string(xml)
-    d = H.make_state(rng, m, mujoco.MjData(m))
-    qpos, qvel = d.qpos.copy(), d.qvel.copy()
-    m, d, mm, dd = H.run_forward(xml, qpos, qvel)
-    f, st = contact_forces(m, d, mm, dd, cfg)
+    qp, qv = B.batch_states(rng, m, nworld)  # one state per world
+    m, dl, mm, dd = B.run_batch(xml, qp, qv)
+    cfg = dict(cfg, nworld=nworld)
+    orders = request_orders(rng, int(dd.nacon.numpy()[0]))
+    f, st = contact_forces(m, dl, mm, dd, cfg, orders=orders)
     res.count()
-    for key in ("contacts", "matched", "same_constraint_set"):
+    for key in ("contacts", "matched", "same_constraint_set", "slots"):
       agg[key] += st.get(key, 0)
     agg["dims"] |= st["dims"]
+    agg["orders"] |= st["orders"]
     for key in ("worst_mj", "worst_decode"):
       agg[key] = max(agg[key], st[key])
     if st["contacts"]:
-      res.nontrivial(("forward", k, cone, st["contacts"]))
+      res.nontrivial(("forward", k, cone, nworld, st["contacts"]))
+      agg["nworlds"].add(nworld)
     if k == 0:
-      res.sample({"kind": "contact_force oracle", "config": cfg, "ncon": int(d.ncon), "xml": xml[:300]})
-    for x in f[:3]:
-      fails.append({"xml": xml, "qpos": qpos.tolist(), "qvel": qvel.tolist(), "config": cfg, "failure": x})
-  res.extra["contact_force_oracle"] = {k: (sorted(map(list, v)) if isinstance(v, set) else (round(v, 7) if isinstance(v, float) else v)) for k, v in agg.items()}
+      res.sample({"kind": "contact_force oracle", "config": cfg, "ncon": [int(d.ncon) for d in dl], "orders": [(n, x.tolist()) for n, x in orders][:3], "xml": xml[:300]})
+    sites = set()
+    for x in f:
+      if x["site"] not in sites and len(sites) < 4:
+        sites.add(x["site"])
+        fails.append({"xml": xml, "qpos": qp.tolist(), "qvel": qv.tolist(), "config": cfg, "failure": x})
+  res.extra["contact_force_oracle"] = {k: (sorted(map(lambda z: list(z) if isinstance(z, tuple) else z, v)) if isinstance(v, set) else (round(v, 7) if isinstance(v, float) else v)) for k, v in agg.items()}
   return fails, agg
 
 
@@ -305,7 +385,7 @@ def run(res):
   quick = res.tier == "quick"
   res.rule = (
     "T-validation: _decode_pyramid and contact_force_fn compiled with real Warp arrays (row buffers shorter than the contact, njmax_in below the buffer "
-    "length, invalid / boundary contact ids, both cones, condim 1..6, adhesion, world frame) vs the Gallina term; oracle: every contact of random scenes, "
+    "length, invalid / boundary contact ids, both cones, condim 1..6, adhesion, world frame) vs the Gallina term; oracle: batches of 1-4 worlds with one state per world, request lists identity/reversed/permuted/subset/repeats/out-of-range(-1, >= nacon), "
     "both cones, condim 1/3/4/6, dense/sparse, both frames, against mj_contactForce and against a numpy decode of MJWarp's efc_force"
   )
   tm = res.extra.setdefault("timing_s", {})
@@ -325,14 +405,26 @@ def run(res):
       tbad = [{"error": str(e)[-400:]}]
     search = search or bool(tbad)
     tm["tvalid"] = round(time.time() - t0, 1)
+  kbad = []
+  if tr is not None:
+    try:
+      kbad = kvalidate(res, tr, 15 if quick else 60)
+    except RuntimeError as e:
+      kbad = [{"error": str(e)[-400:]}]
+    res.obligation("kernel validation: translated contact_force_kernel agrees with the real kernel (2-4 worlds, permuted/reversed/subset/repeated/out-of-range requests)", not kbad, f"{len(kbad)} disagreements")
+    search = search or bool(kbad)
+    tm["kvalid"] = round(time.time() - t0, 1)
   fails, agg = forward_oracle(res, (20 if quick else 200) * (2 if search else 1))
   tm["forward"] = round(time.time() - t0, 1)
   res.obligation("oracle reached every (cone, condim) combination", len(agg["dims"]) >= 8, f"{sorted(agg['dims'])}")
+  res.obligation("oracle reached batches of 2, 3 and 4 different worlds and every request order", {2, 3, 4} <= agg["nworlds"] and len(agg["orders"]) >= 6, f"nworld {sorted(agg['nworlds'])}, orders {sorted(agg['orders'])}")
   for f in sfails[:3]:
     res.violation(f"C39:{f['site']}:spec", "compiled function differs from mju_decodePyramid / mj_contactForce semantics on this input", f)
   for f in fails[:4]:
     res.violation(f"C39:contact_force:{f['failure']['site']}", f"mjw.contact_force: {f['failure']}", f)
   fails = fails or sfails
+  if kbad and not fails:
+    res.violation("C39:kernel-translation-mismatch", "translated contact_force_kernel disagrees with the real kernel (kernel-level theorem no longer tied to code)", kbad[:3], found_input=False)
   if tbad and not fails:
     res.violation("C39:translator-mismatch", "translated Gallina disagrees with compiled Warp function (model no longer tied to code)", tbad[:3], found_input=False)
   if not ok and not fails:
@@ -375,8 +467,12 @@ def replay(res, path):
   if not isinstance(r, dict) or "xml" not in r:
     print("replay: no concrete input in this file (proof/correspondence breakage); re-run the check")
     return 1
-  m, d, mm, dd = H.run_forward(r["xml"], np.array(r["qpos"]), np.array(r["qvel"]))
-  f, st = contact_forces(m, d, mm, dd, r["config"])
+  from props import C06 as B
+
+  m, d, mm, dd = B.run_batch(r["xml"], r["qpos"], r["qvel"])
+  x = r.get("failure", {})
+  orders = [(x.get("order", "stored"), np.asarray(x["contact_ids"], dtype=np.int32))] if "contact_ids" in x else None
+  f, st = contact_forces(m, d, mm, dd, r["config"], rng=np.random.default_rng(0), orders=orders)
   print("stats:", st)
   print("failures:", f[:5])
   return 1 if f else 0
